@@ -188,9 +188,11 @@ theorem append_sep_inj {c : Char} : ∀ (l₁ l₂ r₁ r₂ : List Char), c ∉
     rw [h.1, append_sep_inj l₁ l₂ r₁ r₂ (fun m => h₁ (List.mem_cons_of_mem _ m))
       (fun m => h₂ (List.mem_cons_of_mem _ m)) h.2]
 
-theorem dash_not_in_pad5 (n : Nat) : '-' ∉ pad5 n := fun h => by
+theorem dash_not_in_pad5 (n : Nat) : sep1 ∉ pad5 n := fun h => by
   have := pad5_isDigit h
-  simp at this
+  have hs : sep1.isDigit = false := by decide
+  rw [hs] at this
+  cases this
 
 /-- The archive file name determines the log id: archives of different logs never share a
 name, for all ids and time ranges. -/
@@ -605,6 +607,8 @@ def Standard (idBound : Nat) (nodes : List (Name × Node)) : Prop :=
 
 theorem hasZstExt_archName (id s e : Nat) : hasZstExt (archName id s e) = true := by
   have hs : zstSuffix = ".wal".toList ++ dotZst := by decide
+  have hsl : zstSuffix.length = 8 := by decide
+  have hdl : dotZst.length = 4 := by decide
   have hsuf : dotZst <:+ archName id s e := by
     unfold archName
     rw [hs, ← List.append_assoc]
@@ -612,8 +616,6 @@ theorem hasZstExt_archName (id s e : Nat) : hasZstExt (archName id s e) = true :
   have hlen : (archName id s e).length > dotZst.length := by
     unfold archName
     simp only [List.length_append, List.length_cons]
-    have : zstSuffix.length = 8 := by decide
-    have : dotZst.length = 4 := by decide
     omega
   simp [hasZstExt, List.isSuffixOf_iff_suffix.mpr hsuf, hlen]
 
@@ -663,5 +665,174 @@ theorem listArchives_sorted_by_id {nodes : List (Name × Node)} (hstd : Standard
     simp only [le, hna, hnb, Archive.fileName] at hle
     rw [this] at hle
     exact absurd hle (by decide)
+
+/-! ## the archive root after a pass; from a directory entry to `recover_all` -/
+
+theorem writeToFile_root_of_ok {fails : Nat → Bool} {fs : ArchFs} {a : Archive}
+    (h : (writeToFile fails fs a).1 = true) : (writeToFile fails fs a).2.root = .dir := by
+  cases h' : (rootBad fs.root || fails a.header.logId || squatted fs.nodes a.fileName)
+  · rw [writeToFile_ok h']
+  · rw [(writeToFile_err h').1] at h
+    cases h
+
+theorem writeToFile_root_dir (fails : Nat → Bool) {fs : ArchFs} (a : Archive) (h : fs.root = .dir) :
+    (writeToFile fails fs a).2.root = .dir := by
+  unfold writeToFile
+  rw [h]
+  simp only
+  split <;> rfl
+
+section Root
+variable {L : Type} (p : Parser L) (fails : Nat → Bool) (shard : Nat)
+
+theorem archiveLog_root_of_ok {wal : List (WalFile L)} {fs : ArchFs} {id : Nat}
+    (h : (archiveLog p fails shard wal fs id).1 = true) : (archiveLog p fails shard wal fs id).2.root = .dir := by
+  unfold archiveLog at h ⊢
+  cases hf : findFile wal (walName id) with
+  | none => rw [hf] at h; cases h
+  | some f =>
+    rw [hf] at h
+    simp only at h ⊢
+    cases hr : f.readable
+    · simp [hr] at h
+    · simp only [hr, if_true] at h ⊢
+      exact writeToFile_root_of_ok h
+
+theorem archiveLog_root_dir (wal : List (WalFile L)) {fs : ArchFs} (id : Nat) (h : fs.root = .dir) :
+    (archiveLog p fails shard wal fs id).2.root = .dir := by
+  unfold archiveLog
+  split
+  · exact h
+  · split
+    · exact writeToFile_root_dir fails _ h
+    · exact h
+
+theorem archivePass_root_dir (bound : Nat) (wal : List (WalFile L)) :
+    ∀ (todo : List (WalFile L)) (fs : ArchFs), fs.root = .dir →
+      (archivePass p fails shard bound wal todo fs).2.root = .dir
+  | [], _, h => h
+  | g :: rest, fs, h => by
+    unfold archivePass
+    split
+    · exact archivePass_root_dir bound wal rest fs h
+    · exact archivePass_root_dir bound wal rest _ (archiveLog_root_dir p fails shard wal _ h)
+
+theorem archivePass_root_of_ok (bound : Nat) (wal : List (WalFile L)) :
+    ∀ (todo : List (WalFile L)) (fs : ArchFs),
+      (∃ ok ∈ (archivePass p fails shard bound wal todo fs).1, ok = true) →
+      (archivePass p fails shard bound wal todo fs).2.root = .dir
+  | [], _, h => by obtain ⟨_, h, _⟩ := h; cases h
+  | g :: rest, fs, h => by
+    unfold archivePass at h ⊢
+    split
+    · rename_i hg
+      simp only [hg] at h
+      exact archivePass_root_of_ok bound wal rest fs h
+    · rename_i id hg
+      simp only [hg] at h ⊢
+      obtain ⟨ok, hmem, hok⟩ := h
+      rcases List.mem_cons.mp hmem with rfl | hmem
+      · exact archivePass_root_dir p fails shard bound wal rest _ (archiveLog_root_of_ok p fails shard hok)
+      · exact archivePass_root_of_ok bound wal rest _ ⟨ok, hmem, hok⟩
+
+end Root
+
+theorem lookup_mem {n : Name} {v : Node} : ∀ {l : List (Name × Node)}, lookup n l = some v → (n, v) ∈ l
+  | [], h => by cases h
+  | (m, w) :: rest, h => by
+    simp only [lookup] at h
+    split at h
+    · rename_i hm
+      cases h
+      subst hm
+      exact List.mem_cons_self
+    · exact List.mem_cons_of_mem _ (lookup_mem h)
+
+/-- An archive sitting in the directory under a `.zst` name contributes its entries, as one
+contiguous block, to `recover_all`. -/
+theorem recoverAll_contains {fs : ArchFs} (hroot : fs.root = .dir) {n : Name} {a : Archive}
+    (hmem : (n, Node.archive a) ∈ fs.nodes) (hext : hasZstExt n = true) :
+    ∃ pre post, recoverAll fs = some (pre ++ a.entries.map Entry.reser ++ post) := by
+  rw [recoverAll_dir fs hroot]
+  have hin : (n, Node.archive a) ∈ listArchives fs.nodes := by
+    unfold listArchives
+    apply (isort_perm _ _).symm.subset
+    exact List.mem_filter.mpr ⟨hmem, hext⟩
+  obtain ⟨s, t, hst⟩ := List.append_of_mem hin
+  rw [hst]
+  refine ⟨s.flatMap nodeEntries, t.flatMap nodeEntries, ?_⟩
+  simp [List.flatMap_append, List.flatMap_cons, nodeEntries, readNode]
+
+/-! ## histories of conservative cleanups -/
+
+section History
+variable {L : Type} (p : Parser L) (fails : Nat → Bool) (shard : Nat)
+
+/-- `n` is a name the archive pass over `wal` may write. -/
+def Writes (bound : Nat) (wal : List (WalFile L)) (n : Name) : Prop :=
+  ∃ g ∈ wal, ∃ id, eligible bound g.name = some id ∧
+    ∃ f, findFile wal (walName id) = some f ∧ n = (mkArchive p shard id f.lines).fileName
+
+/-- The hypotheses under which one cleanup keeps the property: distinct names, eligible logs
+carry the writer's name for their id, and no archive about to be written has the name of
+something already in the archive directory. -/
+def StepOk (st : List (WalFile L) × ArchFs) (s : Step L) : Prop :=
+  ((addFiles st.1 s.add).map (·.name)).Nodup ∧
+  (∀ f ∈ addFiles st.1 s.add, ∀ id, eligible s.bound f.name = some id → f.name = walName id) ∧
+  (∀ n, lookup n st.2.nodes ≠ none → ¬ Writes p shard s.bound (addFiles st.1 s.add) n)
+
+def HistoryOk : List (WalFile L) × ArchFs → List (Step L) → Prop
+  | _, [] => True
+  | st, s :: rest => StepOk p shard st s ∧ HistoryOk (runStep true p fails shard st s) rest
+
+/-- some archive of the directory hands back exactly `es` -/
+def Held (fs : ArchFs) (es : List Entry) : Prop :=
+  fs.root = .dir ∧ ∃ n a, lookup n fs.nodes = some (.archive a) ∧ hasZstExt n = true ∧
+    a.entries.map Entry.reser = es
+
+theorem cleanup_cons_snd (bound : Nat) (wal : List (WalFile L)) (fs : ArchFs) :
+    (cleanup true p fails shard bound wal fs).2 = (archivePass p fails shard bound wal wal fs).2 := by
+  unfold cleanup
+  simp only [if_true]
+  split <;> rfl
+
+theorem held_step {st : List (WalFile L) × ArchFs} {s : Step L} {es : List Entry}
+    (h : Held st.2 es) (hok : StepOk p shard st s) : Held (runStep true p fails shard st s).2 es := by
+  obtain ⟨hroot, n, a, hl, hext, hes⟩ := h
+  unfold runStep
+  rw [cleanup_cons_snd]
+  refine ⟨archivePass_root_dir p fails shard _ _ _ _ hroot, n, a, ?_, hext, hes⟩
+  rw [archivePass_preserves p fails shard s.bound _ n _ st.2]
+  · exact hl
+  · intro g hg id hid f hf heq
+    exact hok.2.2 n (by rw [hl]; simp) ⟨g, hg, id, hid, f, hf, heq⟩
+
+theorem held_steps {es : List Entry} : ∀ (steps : List (Step L)) (st : List (WalFile L) × ArchFs),
+    Held st.2 es → HistoryOk p fails shard st steps → Held (runSteps true p fails shard st steps).2 es
+  | [], _, h, _ => h
+  | s :: rest, st, h, hok => by
+    simp only [runSteps, List.foldl_cons]
+    exact held_steps rest _ (held_step p fails shard h hok.1) hok.2
+
+theorem historyOk_append : ∀ (a b : List (Step L)) (st : List (WalFile L) × ArchFs),
+    HistoryOk p fails shard st (a ++ b) →
+    HistoryOk p fails shard st a ∧ HistoryOk p fails shard (runSteps true p fails shard st a) b
+  | [], _, _, h => ⟨trivial, h⟩
+  | s :: a, b, st, h => by
+    simp only [List.cons_append, HistoryOk] at h
+    obtain ⟨h₁, h₂⟩ := historyOk_append a b _ h.2
+    exact ⟨⟨h.1, h₁⟩, by simpa [runSteps] using h₂⟩
+
+theorem runSteps_append (a b : List (Step L)) (st : List (WalFile L) × ArchFs) :
+    runSteps true p fails shard st (a ++ b) = runSteps true p fails shard (runSteps true p fails shard st a) b := by
+  simp [runSteps, List.foldl_append]
+
+theorem held_recover {fs : ArchFs} {es : List Entry} (h : Held fs es) :
+    ∃ pre post, recoverAll fs = some (pre ++ es ++ post) := by
+  obtain ⟨hroot, n, a, hl, hext, hes⟩ := h
+  obtain ⟨pre, post, hr⟩ := recoverAll_contains hroot (lookup_mem hl) hext
+  exact ⟨pre, post, by rw [hr, hes]⟩
+
+end History
 
 end Snel.WalArchive
